@@ -359,7 +359,7 @@ func (o *oracle) check(op world.Op, info pktInfo, obs world.OpObs) []Failure {
 					}
 				}
 			}
-		} else if len(op.Plan) == 0 && !obs.After.Equal(obs.Before) {
+		} else if !obs.Recv.Success && !obs.After.Equal(obs.Before) {
 			fs = append(fs, o.fail("error-ack-state-changed", "error acknowledgement but the committed state changed", desc))
 		}
 		// C03: any failed call => no success; success on an orbiter packet => a bridge call happened and succeeded
